@@ -3,7 +3,14 @@
 import json, os
 HERE = os.path.dirname(os.path.dirname(os.path.abspath(__file__)))
 ALL = ["C%02d" % i for i in range(1, 21)]
+HYD_NOTE = "Trusted: TLC; Dec.tla exact decimal arithmetic (self-tested by setup); recorded floats are logged at their shortest round-trip decimal; tolerances derived from the solver criterion max|residual| < 1e-6 with factor 2; non-converged runs are counted, not asserted."
 CLAIMED = {
+ "C01": dict(cat="model_checking", tech="TLC trace validation of recorded WNTRSimulator runs against Hydraulics.tla (node balances and demand-driven demand in exact decimal arithmetic)",
+   text="Every reported row of every run on seeded random feature-rich networks is checked by TLC (ObsTrace.tla) against the mass-balance clauses of Hydraulics.tla: junction balance incl. leaks, tank and reservoir demand = net inflow, and in DD mode delivered demand = sum base x pattern(t + pattern_start) x multiplier, with adjacency taken from the scenario definition, not from WNTR.",
+   note=HYD_NOTE, ref="DESIGN.md section 5 C01"),
+ "C02": dict(cat="model_checking", tech="TLC trace validation against the (type, status) law table of Hydraulics.tla; rational powers decided by verified witnesses (PowCert)",
+   text="Every link x reported row of random networks and of single-link law probes (flows of both signs and near zero, both Hazen-Williams modes, 1/2/3-point and power pumps, PRV/PSV/FCV/TCV in each status) is judged by TLC against the one law selected by its type and reported status; Hazen-Williams and pump-curve powers are checked through witnesses that the specification verifies itself.",
+   note=HYD_NOTE + " Known findings (open): reverse flow through open pumps, see known_findings.json.", ref="DESIGN.md section 5 C02"),
  "C04": dict(cat="model_checking", tech="TLA+ model of run_sim's presolve/rule loop (WntrSim.tla) checked by TLC to refine the declarative control semantics (Controls.tla); TLC-emitted timelines replayed into the real WNTRSimulator",
    text="Controls.tla states the observable semantics of time/clock-time controls and rules (EPANET's, calibrated against the 2.2 toolkit); WntrSim.tla is the loop of run_sim action by action. For every scenario TLC runs the algorithm, checks that it refines the declarative timeline, and emits the expected solved times and statuses; the real simulator is run on the same scenario and must report exactly those. Scope S1 (every single control/rule body x option grid) is exhaustive in the thorough tier, S2 (sets of <=3 controls and <=3 rules, priorities, conflicts) is sampled.",
    note="Trusted: TLC; hydraulics are irrelevant for time-only schedules (time family); outcomes the property leaves open are excluded by Controls!Determinate and counted.",
